@@ -66,6 +66,21 @@ pub fn replay(cases: &str, verdicts: &str) {
             let lv = Vector::new(l.data.to_vec());
             judge(&mut v, &c, "Vector.Matrix", by_op!(op, lv.clone(), r.clone()), exp, cls, op);
         }
+        // the same shapes with IEEE special values in the operands (0/0, inf - inf, 0 * inf, NaN, signed zeros, overflow): a compatible
+        // pair still never panics and entry (i, j) is still left(i or 0, j or 0) op right(i or 0, j or 0), NaN where IEEE says NaN
+        if exp["out"] == "ok" && v.cases % 2 == 0 {
+            const SP: [f64; 9] = [0.0, f64::INFINITY, f64::NAN, -0.0, f64::NEG_INFINITY, 1.0, 1e308, -2.5, 5e-324];
+            let ls = mk(Vector::new((0..l.data.len()).map(|k| SP[(k * 2 + v.cases as usize) % 9]).collect::<Vec<f64>>()), l.nrows, l.ncols);
+            let rs = mk(Vector::new((0..r.data.len()).map(|k| SP[(k * 5 + 1 + v.cases as usize / 2) % 9]).collect::<Vec<f64>>()), r.nrows, r.ncols);
+            let (nr, nc) = (l.nrows.max(r.nrows), l.ncols.max(r.ncols));
+            let sc = |a: f64, b: f64| match op { "add" => a + b, "sub" => a - b, "mul" => a * b, _ => a / b };
+            let want: Vec<f64> = (0..nr * nc).map(|q| { let (i, j) = (q / nc, q % nc);
+                sc(ls.data[(if l.nrows == 1 { 0 } else { i }) * l.ncols + if l.ncols == 1 { 0 } else { j }], rs.data[(if r.nrows == 1 { 0 } else { i }) * r.ncols + if r.ncols == 1 { 0 } else { j }]) }).collect();
+            for (form, got) in by_op!(op, ls.clone(), rs.clone()) {
+                let ok = got.as_ref().map(|m| m.nrows == nr && m.ncols == nc && m.data.len() == want.len() && m.data.iter().zip(&want).all(|(a, b)| a.to_bits() == b.to_bits() || (a.is_nan() && b.is_nan()))).unwrap_or(false);
+                v.check(ok, &format!("Matrix.Matrix {}", form), &format!("{} {} special-values", op, cls), &json!({"case": c, "left": fjs(&ls.data), "right": fjs(&rs.data)}), match &got { Some(m) => json!(fjs(&m.data)), None => json!("panic") });
+            }
+        }
     });
     v.finish();
 }
